@@ -11,7 +11,7 @@ model driver, and replays the witnesses of the refuted statements.  Shares all m
 import core, glob, os, shutil
 import pC07
 
-FINDINGS = [f for f in pC07.FINDINGS if f[0].split(":")[1].split("-")[0] in ("D4", "D24", "D25", "D26")]
+FINDINGS = [f for f in pC07.FINDINGS if f[0].split(":")[1].split("-")[0] in ("D4", "D24", "D25", "D26", "D28")]
 
 RULE_FS = ("file-system level: real NodeBuilder::create + node drop and Node::list + DeadNodeView::try_remove_stale_resources, one process each (harness bin `lifecycle`), "
            "killed with SIGKILL on entering the system call of every model step (31 kill points of creation + orderly drop, 40 of the clean-up of a dead node with a tag); "
